@@ -109,7 +109,25 @@ impl SubCheck for DateTimeText {
         "case = (date, time, whole-minute offset): NaiveDateTime, DateTime<Utc> and DateTime<FixedOffset> Display and Debug have the reference shape and parse back to the same value (same instant and offset); non-trivial = year outside 0..=9999, fraction, leap second, negative offset"
     }
     fn strategy(&self) -> Option<BoxedStrategy<Self::Case>> {
-        Some((text_day(), text_time(), gen::offset_minutes()).boxed())
+        // values whose fields repeat one another (all two-digit fields equal; fraction digits spelling the
+        // date, the clock time or the second of the day)
+        let echo = (1i64..=12, proptest::sample::select(vec![1900i64, 2000, 0, -100, 12_300]), any::<bool>(), 0u8..6, 0u32..1000, gen::offset_minutes()).prop_map(|(v, base, pm, k, r, off)| {
+            let y = base + v;
+            let z = cal::days_from_civil(y, v as u32, v as u32);
+            let h = (v % 12 + if pm { 12 } else { 0 }) as u32;
+            let secs = h * 3600 + v as u32 * 60 + v as u32;
+            let ymd = (y.rem_euclid(10_000) * 10_000 + v * 100 + v) as u32; // YYYYMMDD
+            let frac = match k {
+                0 => 0,
+                1 => (ymd % 100_000_000) * 10 + r % 10,
+                2 => ((y.rem_euclid(10_000) * 1000 + cal::ordinal(z) as i64) as u32 % 10_000_000) * 100 + r % 100,
+                3 => (v as u32 * 10_000 + v as u32 * 100 + h) * 1000,
+                4 => (secs * 10_000) % 1_000_000_000,
+                _ => (h * 10_000 + v as u32 * 100 + v as u32) * 1000,
+            };
+            (z, T { secs, frac }, off)
+        });
+        Some(prop_oneof![12 => (text_day(), text_time(), gen::offset_minutes()), 1 => echo].boxed())
     }
     fn check(&self, &(z, t, off): &Self::Case, obs: &mut Obs) -> Result<(), String> {
         classify(z, Some(t), Some(off), obs);
